@@ -21,6 +21,14 @@ def stmtElemSafe : Stmt → Bool
   | .alterType .. | .setDefault .. | .dropNotNull .. => false
   | s => s.table != ""
 
+/-- copy of `Stmt.colSafe` (Proofs/FidelityMain.lean): the vocabulary of the reader-fidelity theorem `Rel` -/
+def stmtColSafe : Stmt → Bool
+  | .renameColumn .. => false
+  | .renameIndex .. => false
+  | .commentOn .. => false
+  | .alterType .. | .setDefault .. | .dropNotNull .. => false
+  | s => s.table != ""
+
 def colDefPlain (c : ColDef) : Bool :=
   c.opts.all (fun o => o.kind != .reference && o.kind != .primaryKey && o.hasExpr)
 
@@ -70,6 +78,13 @@ def whyNot (g : Globals) (old new : List Stmt) (dbO dbN : DB) : String :=
       tbN.fks.all (fun s => tbO.fks.all (fun o => s.name != o.name || decide (s = o))))) then "foreign-key-redefined"
   else if !pairOK true dbO dbN then "common-table"
   else "inside"
+
+/-- inside the scope of `C05.dump_on_reference_engine` (the whole-schema theorem of C01 with an empty old side: what is
+    printed for a loaded script, executed on the empty schema, is the schema the script describes) -/
+def dump (g : Globals) (ss : List Stmt) (db : DB) : Bool := up g [] ss [] db
+
+/-- inside the scope of `C15.export_of_the_reference_schema` -/
+def avro (g : Globals) (ss : List Stmt) : Bool := g.dialect == .mysql && ss.all stmtColSafe
 
 -- ---------------------------------------------------------------------------------------------------------------
 -- C04: revision lists (newest first, each script with the reference schema it describes)
